@@ -453,14 +453,15 @@ theorem py_module_exact (items : List PItem) : ∀ (st : PState), st.cur = none 
     cases it with
     | cls n a ms =>
       simp only [PItem.events, runFrom_append]
-      have e : runFrom st [.enterClass n a] = some { st with cur := some { name := n, annos := a } } := by simp [runFrom, onPy]
+      have e : runFrom st [.enterClass n a] = some { st with cur := some { name := n, annos := a }, stack := none :: st.stack } := by
+        simp [runFrom, onPy, h, Gen.Front.pyEnterClassPushes]
       rw [e]
       simp only [Option.bind_some]
       rw [methods_run ms _ { name := n, annos := a } rfl]
       simp only [Option.bind_some]
-      have e2 : runFrom { st with cur := some { name := n, annos := a, fns := [] ++ ms.flatMap PDef.fns } } [.exitClass]
+      have e2 : runFrom { st with cur := some { name := n, annos := a, fns := [] ++ ms.flatMap PDef.fns }, stack := none :: st.stack } [.exitClass]
           = some { st with dss := st.dss ++ [{ name := n, annos := a, fns := ms.flatMap PDef.fns }], cur := none } := by
-        simp [runFrom, onPy]
+        simp [runFrom, onPy, Gen.Front.pyExitClassPops]
       simp only [List.nil_append] at e2 ⊢
       rw [e2]
       simp only [Option.bind_some]
@@ -472,6 +473,39 @@ theorem py_module_exact (items : List PItem) : ∀ (st : PState), st.cur = none 
       simp only [Option.bind_some]
       rw [ih { st with members := st.members ++ d.fns } h]
       simp [classesOf, membersOf, List.append_assoc]
+
+/-- **a class with an inner class** (methods before it, the inner class with its methods, methods after it): no crash, the
+    inner class is listed with its own methods, the outer class with the methods before AND after the inner class, and no
+    class is left open.  (With the unguarded, stack-less listener of before c…: the second `exitClass` dereferenced nil.) -/
+theorem py_inner_class (n m : String) (a b : List PAnno) (before inner after : List PDef) (st : PState) (h : st.cur = none) :
+    runFrom st ([.enterClass n a] ++ before.flatMap PDef.events ++ [.enterClass m b] ++ inner.flatMap PDef.events ++ [.exitClass]
+        ++ after.flatMap PDef.events ++ [.exitClass]) =
+      some { st with dss := st.dss ++ [{ name := m, annos := b, fns := inner.flatMap PDef.fns },
+                                         { name := n, annos := a, fns := before.flatMap PDef.fns ++ after.flatMap PDef.fns }],
+                     cur := none } := by
+  simp only [runFrom_append]
+  have e1 : runFrom st [.enterClass n a] = some { st with cur := some { name := n, annos := a }, stack := none :: st.stack } := by
+    simp [runFrom, onPy, h, Gen.Front.pyEnterClassPushes]
+  rw [e1]; simp only [Option.bind_some]
+  rw [methods_run before _ { name := n, annos := a } rfl]; simp only [Option.bind_some, List.nil_append]
+  have e2 : runFrom { st with cur := some { name := n, annos := a, fns := before.flatMap PDef.fns }, stack := none :: st.stack } [.enterClass m b]
+      = some { st with cur := some { name := m, annos := b },
+                       stack := some { name := n, annos := a, fns := before.flatMap PDef.fns } :: none :: st.stack } := by
+    simp [runFrom, onPy, Gen.Front.pyEnterClassPushes]
+  rw [e2]; simp only [Option.bind_some]
+  rw [methods_run inner _ { name := m, annos := b } rfl]; simp only [Option.bind_some, List.nil_append]
+  have e3 : runFrom { st with cur := some { name := m, annos := b, fns := inner.flatMap PDef.fns },
+                              stack := some { name := n, annos := a, fns := before.flatMap PDef.fns } :: none :: st.stack } [.exitClass]
+      = some { st with dss := st.dss ++ [{ name := m, annos := b, fns := inner.flatMap PDef.fns }],
+                       cur := some { name := n, annos := a, fns := before.flatMap PDef.fns }, stack := none :: st.stack } := by
+    simp [runFrom, onPy, Gen.Front.pyExitClassPops]
+  rw [e3]; simp only [Option.bind_some]
+  rw [methods_run after _ { name := n, annos := a, fns := before.flatMap PDef.fns } rfl]; simp only [Option.bind_some]
+  simp [runFrom, onPy, Gen.Front.pyExitClassPops, List.append_assoc]
+
+/-- the regenerated facts the nesting rests on -/
+theorem py_nesting_facts : Gen.Front.pyEnterClassPushes = true ∧ Gen.Front.pyExitClassGuardsNil = true ∧ Gen.Front.pyExitClassPops = true ∧
+    Gen.Front.pythonListenerUnreset.contains "currentDataStruct" = false := by decide
 
 /-- a single `import a` / `import a as c` is listed under its own name -/
 theorem py_import_single (st : PState) (d a t : String) :
